@@ -418,6 +418,7 @@ func c19Builtin(p *Program, r *Report) {
 	c19Range(p, r, lits["range"])
 	c19Keys(p, r, lits["keys"])
 	c19ImportFresh(p, r)
+	c19LenIsLen(p, r)
 	c19Describes(p, r, "typeOf", lits["typeOf"], false)
 	c19Describes(p, r, "kindOf", lits["kindOf"], true)
 	var toSlice *ssa.Function
@@ -1430,4 +1431,59 @@ func childOrNew(fn *ssa.Function) bool {
 		}
 	}
 	return true
+}
+
+// c19LenIsLen (R13): what the len expression yields is reflect's Len() of the operand, for every kind it accepts: every integer it
+// boxes as its result is a conversion of Value.Len() applied to the evaluated operand. (A character count for strings is not Go's
+// len, and disagrees with indexing and slicing, which count bytes.)
+func c19LenIsLen(p *Program, r *Report) {
+	m, err := buildVMModel(p)
+	if err != nil {
+		return
+	}
+	h := m.handlers["expr"]["LenExpr"]
+	if h == nil {
+		r.Undecided("C19.R13", "len|handler", "vm", "no handler for the len expression found")
+		return
+	}
+	base := m.baseOf(h)
+	n := 0
+	for _, b := range h.Blocks {
+		for _, in := range b.Instrs {
+			st, ok := in.(*ssa.Store)
+			if !ok || m.cellAddr(st.Addr, base) != "rv" {
+				continue
+			}
+			c, ok := st.Val.(*ssa.Call)
+			if !ok {
+				continue
+			}
+			callee := staticCallee(c)
+			if callee == nil || callee.Pkg != m.sp || len(c.Call.Args) != 1 {
+				continue
+			}
+			bt, ok := c.Call.Args[0].Type().(*types.Basic)
+			if !ok || bt.Info()&types.IsInteger == 0 {
+				continue
+			}
+			n++
+			arg := c.Call.Args[0]
+			if cv, ok := arg.(*ssa.Convert); ok {
+				arg = cv.X
+			}
+			okLen := false
+			if lc, ok := arg.(*ssa.Call); ok && reflectMethod(lc) == "Len" {
+				x := lc.Call.Args[0]
+				if sv := spilledValue(x); sv != nil {
+					x = sv
+				}
+				if u, ok := x.(*ssa.UnOp); ok && m.cellAddr(u.X, base) == "rv" {
+					okLen = true
+				}
+			}
+			r.Check(okLen, "C19.R13", fmt.Sprintf("len|result #%d is Value.Len() of the operand", n), p.Pos(st.Pos()), "the boxed integer is a conversion of reflect.Value.Len() of the evaluated operand",
+				"the length the len expression yields is not reflect.Value.Len() of its operand (for some kind it is computed another way): it is no longer Go's len for that kind, and disagrees with indexing and slicing of the same value")
+		}
+	}
+	r.Floor("C19.R13", n, 1)
 }
